@@ -393,6 +393,10 @@ static int conv_main(int argc, char **argv)
  *   OOM P <k1> <k2> <tag> <attrs>        parse_element() on the bytes built from the shapes
  *   OOM S <k1> <k2> <texts>              wbxml_strtbl_initialize() on a tree with these text nodes
  *   OOM T <k1> <k2> <strtbl> <ver> <pubid> <tree> <chunks>   wbxml_tree_to_wbxml() on an element-only tree
+ *   OOM B <k1> <k2> <events>             wbxml_tree_create() + the wbxml_tree_clb_wbxml_* call-backs on these
+ *                                        events + wbxml_tree_destroy() on error, as wbxml_tree_from_wbxml() does;
+ *                                        events: S<tag>[/<name>=<value>;...] start  E end  C<hex> / V<hex> characters
+ *                                        (V: the generator expects a CDATA section; the harness does not look at it)
  * Response: R <results> | req=<requests> hits=<failures delivered> live=<blocks more than before>
  *           fault=<ledger fault> | <canonical state>
  * k1/k2 = request numbers (counted from the start of the observed call) that fail; 0 = none.
@@ -655,6 +659,98 @@ static void do_T(char **t)
     oom_reset();
 }
 
+
+/* ---- B: the tree-building call-backs of wbxml_tree_clb_wbxml.c ---- */
+#include "wbxml_tree_clb_wbxml.h"
+typedef struct { int kind; WBXMLTag *tag; WBXMLAttribute **attrs; unsigned char *text; size_t n; } BEv;
+
+static void b_dump(WBXMLTreeNode *n)
+{
+    WBXMLTreeNode *c;
+    printf("(");
+    switch (n->type) {
+    case WBXML_TREE_ELEMENT_NODE:
+        printf("E");
+        if (!n->name) printf("N");
+        else put_tagname(n->name->type, n->name->u.token, U_lang->tagTable, sizeof(WBXMLTagEntry), n->name->type == WBXML_VALUE_LITERAL ? n->name->u.literal : NULL);
+        if (n->attrs) { WB_ULONG j; for (j = 0; j < wbxml_list_len(n->attrs); j++) put_attr(wbxml_list_get(n->attrs, j)); }
+        break;
+    case WBXML_TREE_TEXT_NODE: printf("T"); if (n->content) put_buf(n->content); else printf("N"); break;
+    case WBXML_TREE_CDATA_NODE: printf("C"); break;
+    default: printf("?"); break;
+    }
+    for (c = n->children; c; c = c->next) b_dump(c);
+    printf(")");
+}
+
+static void do_B(char **t)
+{
+    BEv ev[256]; int nev = 0, i, bad = 0, depth = 0; char *p = t[4]; unsigned long live0;
+    WBXMLTreeClbCtx ctx; WBXMLError ret; WBXMLTreeNode *c;
+    oom_reset();
+    memset(ev, 0, sizeof ev);
+    if (strcmp(p, "-")) while (p && nev < 256) {
+        char *np = strchr(p, ','); BEv *e = &ev[nev++];
+        if (np) *np++ = 0;
+        e->kind = p[0];
+        if (p[0] == 'S') {
+            char *as = strchr(p, '/'); size_t n; unsigned char *x;
+            if (as) *as++ = 0;
+            if (p[1] == 'T') e->tag = wbxml_tag_create_token(&U_lang->tagTable[atoi(p + 2)]);
+            else if (p[1] == 'L') { x = hx_unhex(p + 2, &n); e->tag = wbxml_tag_create_literal(x); free(x); }
+            else bad = 1;
+            if (as) {
+                int na = 0; char *a = as;
+                e->attrs = calloc(34, sizeof(WBXMLAttribute *));
+                while (a && na < 32) {
+                    char *nexta = strchr(a, ';'), *v = strchr(a, '='); WBXMLAttribute *at = wbxml_attribute_create();
+                    if (nexta) *nexta++ = 0;
+                    if (!v) { bad = 1; break; }
+                    *v++ = 0;
+                    if (a[0] == 'T') at->name = wbxml_attribute_name_create_token(&U_lang->attrTable[atoi(a + 1)]);
+                    else if (a[0] == 'L') { x = hx_unhex(a + 1, &n); at->name = wbxml_attribute_name_create_literal(x); free(x); }
+                    else bad = 1;
+                    if (strcmp(v, "N")) { x = hx_unhex(v, &n); at->value = wbxml_buffer_create_real(x, (WB_ULONG)n, (WB_ULONG)n); free(x); }
+                    e->attrs[na++] = at;
+                    a = nexta;
+                }
+            }
+        }
+        else if (p[0] == 'C' || p[0] == 'V') e->text = hx_unhex(p + 1, &e->n);
+        else if (p[0] != 'E') bad = 1;
+        p = np;
+    }
+    if (bad) printf("BADREQ\n");
+    else {
+        live0 = oom.live_blocks;
+        oom_window(strtoul(t[2], NULL, 10), strtoul(t[3], NULL, 10));
+        ctx.error = WBXML_OK; ctx.current = NULL;
+        if ((ctx.tree = wbxml_tree_create(WBXML_LANG_UNKNOWN, WBXML_CHARSET_UNKNOWN)) == NULL) ret = WBXML_ERROR_NOT_ENOUGH_MEMORY;
+        else {
+            for (i = 0; i < nev; i++) {
+                if (ev[i].kind == 'S') wbxml_tree_clb_wbxml_start_element(&ctx, ev[i].tag, ev[i].attrs);
+                else if (ev[i].kind == 'E') wbxml_tree_clb_wbxml_end_element(&ctx, NULL);
+                else wbxml_tree_clb_wbxml_characters(&ctx, ev[i].text, 0, (WB_ULONG)ev[i].n);
+            }
+            if (ctx.error != WBXML_OK) { wbxml_tree_destroy(ctx.tree); ctx.tree = NULL; }
+            ret = ctx.error;
+        }
+        oom_stop();
+        printf("R %d | ", (int)ret); put_tail(live0);
+        if (ctx.tree) { for (c = ctx.current; c; c = c->parent) depth++; }
+        printf(" | cur=%d tree=", depth);
+        if (!ctx.tree) printf("N"); else if (!ctx.tree->root) printf("-"); else b_dump(ctx.tree->root);
+        printf("\n");
+        if (ctx.tree) wbxml_tree_destroy(ctx.tree);
+    }
+    for (i = 0; i < nev; i++) {
+        wbxml_tag_destroy(ev[i].tag);
+        if (ev[i].attrs) { int j; for (j = 0; ev[i].attrs[j]; j++) wbxml_attribute_destroy(ev[i].attrs[j]); free(ev[i].attrs); }
+        free(ev[i].text);
+    }
+    oom_reset();
+}
+
 static int unit_main(void)
 {
     char *line;
@@ -667,6 +763,7 @@ static int unit_main(void)
         else if (nt == 6 && !strcmp(t[0], "OOM") && !strcmp(t[1], "P")) do_P(t);
         else if (nt == 5 && !strcmp(t[0], "OOM") && !strcmp(t[1], "S")) do_S(t);
         else if (nt == 9 && !strcmp(t[0], "OOM") && !strcmp(t[1], "T")) do_T(t);
+        else if (nt == 5 && !strcmp(t[0], "OOM") && !strcmp(t[1], "B")) do_B(t);
         else if (nt == 2 && !strcmp(t[0], "OOM") && !strcmp(t[1], "INFO")) {
             /* page-0 rows of the WML 1.3 tables the P and T verbs may name */
             int i, any = 0;
